@@ -12,7 +12,7 @@ TEXT = {
  'C03': ('every text returned by seeded generation histories (whole hierarchy, child module via different ancestors, createdStructures, interleaved/crashed generations) over netlists with seeded naming faults is parsed and elaborated by vsim with exactly the rules the statement lists',
          'static property; the simulator contributes the elaborator and the call-history dimension; instances that share a module name must give the same body; designs of 300-1000 modules in a seeded minority; open findings KF-C03-1..5'),
  'C04': ('seeded search over instantiation orders, late construction, re-sorts, restarts and duplicate evaluation; oracles: topological order, local fixpoint of every stateless leaf, equality with a twin whose real leaves are evaluated by the harness in its own Kahn order, refusal of combinational cycles (length 1-12, across hierarchy), acceptance of cycles through registers',
-         'samples schedules and netlists; a seeded minority of bulk netlists (1100-17000 leaves, 33000 thorough), 12-48 level hierarchies and 260-bit wires; twin shares the leaf propagate() code (functional defects are C07/C08 matters)'),
+         'samples schedules and netlists; a seeded minority of bulk netlists (1100-9000 leaves, to 33000 thorough), 12-48 level hierarchies and 260-bit wires; twin shares the leaf propagate() code (functional defects are C07/C08 matters)'),
  'C05': ('visit order of drivers / clockables / listeners re-drawn before every edge, runs split, cancelled (stop) and resumed, re-sorted, restarted; oracles: twin stepped one edge at a time by the harness, pure-Python two-phase reference, Wire.prepared empty after every call, no double prepare, total_clks accounting',
          'samples designs and schedules; a seeded minority of 300-4200 register rings, 300-2500 edge bursts, deep hierarchies; inputs change only between clk calls'),
  'C06': ('adversarial constants / reset values / sequence values / pokes (negative, oversized, 2**200) over the whole catalogue; range invariant checked after construction, after every clk, inside listeners and in Waveform samples; the same invariant is monitored in every run of every other check',
